@@ -308,7 +308,10 @@ def run_vacuity(g, meta):
                 ok = False
                 break
             ty = mm.group(3).strip()
-            ty = re.sub(r"^&\s*mut\s+", "", ty)
+            if re.match(r"^&\s*mut\s+\[", ty):
+                ty = re.sub(r"^&\s*mut\s+", "&", ty)   # unsized: keep a shared reference
+            else:
+                ty = re.sub(r"^&\s*mut\s+", "", ty)
             out_ps.append("%s: %s" % (mm.group(2), ty))
         if not ok:
             skipped.append(key)
